@@ -13,7 +13,7 @@
 (***************************************************************************)
 EXTENDS QueryRef, Json
 
-CONSTANTS MaxTokLen, MaxDict, Family, MaxTerms, MaxTextLen   \* Family \in {"glob", "match", "range"}
+CONSTANTS MaxTokLen, MaxDict, Family, MaxTerms, MaxTextLen   \* Family \in {"glob", "match", "infix", "range"}
 
 VARIABLES dict, layout, tok
 vars == <<dict, layout, tok>>
@@ -24,7 +24,13 @@ Strs(n) == UNION {[1..m -> Chars] : m \in 0..n}
 TextTerms == Strs(MaxTextLen) \ {<<>>}
 Term == TextTerms \cup {Star}
 NoAdjText(p) == \A i \in 1..(Len(p) - 1) : ~(p[i] # Star /\ p[i + 1] # Star)
-Patterns == {p \in UNION {[1..m -> Term] : m \in 1..MaxTerms} : NoAdjText(p)} \cup {<< <<>> >>}   \* + the empty literal
+\* family "infix": a text between two wildcards (pattern/substring.go: the prefix-function scan), texts long enough to
+\* have border chains of depth >= 2 (aab, abab, aabaa...), alone and with a one-character prefix / suffix term
+Chr1 == Strs(1) \ {<<>>}
+InfixPatterns == {<<Star, t, Star>> : t \in TextTerms} \cup {<<u, Star, t, Star>> : u \in Chr1, t \in TextTerms}
+                 \cup {<<Star, t, Star, u>> : u \in Chr1, t \in TextTerms}
+Patterns == IF Family = "infix" THEN InfixPatterns
+            ELSE {p \in UNION {[1..m -> Term] : m \in 1..MaxTerms} : NoAdjText(p)} \cup {<< <<>> >>}   \* + the empty literal
 \* tokens: numbers in every spelling the decimal syntax of QueryRef!IsNum has (leading point, trailing point, sign,
 \* exponent, leading zero) and strings that only look like numbers
 NumPalette == {<<>>, <<"1">>, <<"2">>, <<"1", "0">>, <<"-", "1">>, <<"1", "e", "1">>, <<"1", ".", "5">>,
@@ -123,7 +129,7 @@ Init == dict = <<>> /\ layout = <<>> /\ tok = NoTok
 \* family "match": the whole token universe as one dictionary, in one block and in blocks of 7
 Blocks7(n) == [k \in 1..((n + 6) \div 7) |-> IF 7 * k <= n THEN 7 ELSE n - 7 * (k - 1)]
 PickDict == /\ dict = <<>>
-            /\ IF Family = "match"
+            /\ IF Family \in {"match", "infix"}
                  THEN /\ dict' = SortedSeq(DictU)
                       /\ layout' \in {<<Cardinality(DictU)>>, Blocks7(Cardinality(DictU))}
                  ELSE \E D \in {X \in SUBSET DictU : Cardinality(X) \in 1..MaxDict} :
